@@ -438,8 +438,15 @@ fn collect(net: &mut Net, block_of: &BTreeMap<Hash, Vec<u8>>) {
 /// (it holds A's blocks, off its longest chain)
 pub static B_SAW_A: std::sync::atomic::AtomicBool = std::sync::atomic::AtomicBool::new(false);
 
+/// mode: the syncing node A has completed its initial loading (a block whose parent is missing is
+/// re-queued and its parent fetched, instead of being stored)
+pub static A_LOADED: std::sync::atomic::AtomicBool = std::sync::atomic::AtomicBool::new(false);
+
 pub fn start(f: &Forest, ca: (usize, usize), cb: (usize, usize), block_of: &BTreeMap<Hash, Vec<u8>>) -> Result<Net, String> {
     let mut cfg_a = cfg();
+    if A_LOADED.load(std::sync::atomic::Ordering::SeqCst) {
+        cfg_a.blockchain.initial_loading_completed = true;
+    }
     cfg_a.peers = vec![PeerConfig { host: "b".into(), port: 1, protocol: "http".into(), synctype: "full".into() }];
     cfg_a.fetch_url = "http://a".into();
     let mut cfg_b = cfg();
@@ -610,7 +617,13 @@ fn check_quiescent(f: &Forest, net: &Net, ca: (usize, usize), cb: (usize, usize)
 
 /// default schedule: wire FIFO first, then fetches in order, then internals, then ticks
 fn run_fifo(f: &Forest, ca: (usize, usize), cb: (usize, usize), block_of: &BTreeMap<Hash, Vec<u8>>, rep: &mut Report) {
-    let case = json!({"a": {"fork_after": ca.0, "branch_len": ca.1}, "b": {"fork_after": cb.0, "branch_len": cb.1}});
+    run_sched(f, ca, cb, block_of, rep, false)
+}
+
+/// `newest_first`: messages and internal steps run first (every announced block gets requested),
+/// fetches complete only when nothing else can happen, the most recently requested one first
+fn run_sched(f: &Forest, ca: (usize, usize), cb: (usize, usize), block_of: &BTreeMap<Hash, Vec<u8>>, rep: &mut Report, newest_first: bool) {
+    let case = json!({"a": {"fork_after": ca.0, "branch_len": ca.1}, "b": {"fork_after": cb.0, "branch_len": cb.1}, "fetches_complete": if newest_first { "newest first" } else { "in request order" }});
     let mut net = match start(f, ca, cb, block_of) {
         Ok(n) => n,
         Err(e) => {
@@ -621,7 +634,8 @@ fn run_fifo(f: &Forest, ca: (usize, usize), cb: (usize, usize), block_of: &BTree
     let mut hist = vec![];
     for _ in 0..20_000 {
         let en = enabled(&net, 6);
-        let Some(ev) = en.first().cloned() else { break };
+        let pick = if newest_first { en.iter().find(|e| !matches!(e, Ev::FetchA(_) | Ev::TickA)).or_else(|| en.iter().rev().find(|e| matches!(e, Ev::FetchA(_)))).or_else(|| en.first()).cloned() } else { en.first().cloned() };
+        let Some(ev) = pick else { break };
         hist.push(ev);
         rep.transitions += 1;
         if !apply(&mut net, ev, block_of, rep, &hist, &case) {
@@ -631,7 +645,7 @@ fn run_fifo(f: &Forest, ca: (usize, usize), cb: (usize, usize), block_of: &BTree
     rep.evaluations += 1;
     rep.traces_validated += 1;
     let short: Vec<Ev> = hist.iter().rev().take(12).rev().cloned().collect();
-    check_quiescent(f, &net, ca, cb, &short, rep, &case, "fifo");
+    check_quiescent(f, &net, ca, cb, &short, rep, &case, if newest_first { "newest-fetch-first" } else { "fifo" });
 }
 
 fn explore(f: &Forest, ca: (usize, usize), cb: (usize, usize), block_of: &BTreeMap<Hash, Vec<u8>>, rep: &mut Report, cap: usize) {
@@ -788,6 +802,19 @@ pub fn main(tier: Tier, replay_file: Option<String>) -> i32 {
         rep.outcome("schedules:world-with-a-server-that-saw-the-requesters-branch");
     }
     B_SAW_A.store(false, std::sync::atomic::Ordering::SeqCst);
+    // forked worlds once more with a syncing node that has completed its initial loading
+    A_LOADED.store(true, std::sync::atomic::Ordering::SeqCst);
+    // (with a two-block branch at A also in the quick tier: then two of B's blocks lie at or below
+    // A's tip and can arrive child first)
+    let mut loaded_worlds: Vec<((usize, usize), (usize, usize))> = worlds.iter().filter(|(ca, _)| ca.1 > 0).take(if tier.thorough { usize::MAX } else { 2 }).cloned().collect();
+    if !loaded_worlds.contains(&((1, 2), (4, 0))) {
+        loaded_worlds.push(((1, 2), (4, 0)));
+    }
+    for (ca, cb) in loaded_worlds.iter() {
+        explore(&f, *ca, *cb, &block_of, &mut rep, cap);
+        rep.outcome("schedules:world-with-a-syncing-node-that-completed-loading");
+    }
+    A_LOADED.store(false, std::sync::atomic::Ordering::SeqCst);
     rep.outcome_n("schedules:worlds", worlds.len() as u64);
     // part 2b: default order, long chains
     let mut fifo = vec![];
@@ -833,7 +860,29 @@ pub fn main(tier: Tier, replay_file: Option<String>) -> i32 {
     for r in res {
         rep.merge(r);
     }
-    rep.outcome_n("fifo:worlds", (fifo.len() + forked.len()) as u64);
+    // every long world once more with the fetches completing newest first
+    let res = par_map(&fifo, workers(), |_, (ca, cb)| {
+        let mut r = rep.child();
+        run_sched(&f, *ca, *cb, &block_of, &mut r, true);
+        r.outcome("newest-fetch-first:world");
+        r
+    });
+    for r in res {
+        rep.merge(r);
+    }
+    A_LOADED.store(true, std::sync::atomic::Ordering::SeqCst);
+    let res = par_map(&forked, workers(), |_, (ca, cb)| {
+        let mut r = rep.child();
+        run_fifo(&f, *ca, *cb, &block_of, &mut r);
+        run_sched(&f, *ca, *cb, &block_of, &mut r, true);
+        r.outcome("fifo:world-with-a-syncing-node-that-completed-loading");
+        r
+    });
+    A_LOADED.store(false, std::sync::atomic::Ordering::SeqCst);
+    for r in res {
+        rep.merge(r);
+    }
+    rep.outcome_n("fifo:worlds", (fifo.len() + 2 * forked.len()) as u64);
     rep.sample(json!({"a": {"fork_after": 2, "branch_len": 1}, "b": {"fork_after": 5, "branch_len": 0}}));
     rep.required_outcomes = vec!["grid:chains".into(), "converged/fifo".into(), "converged/all-orders".into()];
     rep.finish()
